@@ -500,6 +500,7 @@ def run(ctx):
     gl = GaussLib(ctx.repo)
     congruence_rules(ctx, lib)
     ctx.attempt(pointwise_inverse_rule, ctx, lib)
+    ctx.attempt(structure_assignment_rule, ctx)
     rank_rules(ctx, lib, gl)
     weights_rule(ctx, gl, lib)
     beamops.rule(ctx, lib, "R2.7")
@@ -640,9 +641,12 @@ def pointwise_inverse_rule(ctx, lib, rid="R2.12"):
 
     repo = ctx.repo
     f = repo.method("EasyFEA.FEM._group_elem._GroupElem", "Get_invF_e_pg")
-    r = ctx.rule(rid, "Get_invF_e_pg is the point-wise inverse of Get_F_e_pg on curved simplex elements (invF[e,p] F[e,p] == I at every integration point)", min_instances=2)
-    cases = {"TRI6": ([(Q(1, 6), Q(1, 6)), (Q(2, 3), Q(1, 6))], 3, (Q(1, 7), Q(-1, 9))), "TETRA10": ([(Q(1, 5), Q(1, 6), Q(1, 7)), (Q(1, 2), Q(1, 6), Q(1, 8))], 4, (Q(1, 7), Q(-1, 9), Q(1, 11)))}
-    for name, (pts, moved, delta) in cases.items():
+    r = ctx.rule(rid, "Get_invF_e_pg is the point-wise inverse of Get_F_e_pg on curved simplex elements (invF[e,p] F[e,p] == I at every integration point)", min_instances=5)
+    cases = {"TRI6": ([(Q(1, 6), Q(1, 6)), (Q(2, 3), Q(1, 6))], 3, (Q(1, 7), Q(-1, 9)), False), "TETRA10": ([(Q(1, 5), Q(1, 6), Q(1, 7)), (Q(1, 2), Q(1, 6), Q(1, 8))], 4, (Q(1, 7), Q(-1, 9), Q(1, 11)), False),
+             # the same elements MIRRORED (x -> -x: det F < 0 everywhere, as after Mesh.Symmetry), and straight mirrored QUAD4 / HEXA8
+             "TRI6 mirrored": ([(Q(1, 6), Q(1, 6)), (Q(2, 3), Q(1, 6))], 3, (Q(1, 7), Q(-1, 9)), True), "QUAD4 mirrored": ([(Q(-1, 2), Q(-1, 3)), (Q(1, 3), Q(1, 2))], None, None, True), "TETRA4 mirrored": ([(Q(1, 5), Q(1, 6), Q(1, 7))], None, None, True)}
+    for label, (pts, moved, delta, mirror) in cases.items():
+        name = label.split()[0]
         r.instance(fn=f.qualname)
         ch = Chain(lib, name, symbolic_vertices=False, fe=True)
         dim = ch.ed.dim
@@ -650,7 +654,10 @@ def pointwise_inverse_rule(ctx, lib, rid="R2.12"):
         coord = a["coord"]
         rows = [[coord[n, k] for k in range(3)] for n in range(coord.shape[0])]
         for k in range(dim):
-            rows[moved][k] = rows[moved][k] + delta[k]  # the first mid-side node leaves its chord: a curved edge
+            if moved is not None:
+                rows[moved][k] = rows[moved][k] + delta[k]  # the first mid-side node leaves its chord: a curved edge
+        if mirror:
+            rows = [[-row[0]] + row[1:] for row in rows]
         a["coord"] = XArray.from_nested(rows)
         nP = len(pts)
         a["Get_gauss"] = lambda mt=None, pts=pts, nP=nP, dim=dim: SimpleNamespace(coord=XArray((nP, dim), [v for p in pts for v in p]), nPg=nP, weights=XArray((nP,), [Q(1, 6)] * nP))
@@ -668,6 +675,59 @@ def pointwise_inverse_rule(ctx, lib, rid="R2.12"):
                         if bad is None and not is_zero(Poly.of(tot) - (1 if i == j else 0)):
                             bad = f"(invF . F)[{i}][{j}] at integration point {p} is {tot}"
         if bad:
-            r.fail(f.qualname, f"pointwise-inverse:{name}", f.file, f.lineno, "_GroupElem.Get_invF_e_pg", f"curved {name} (one mid-side node off its chord): {bad}: the inverse Jacobian is not taken at the integration point, dN/dx is not the physical gradient there and a rigid rotation stores strain energy (K loses a rigid-body mode on curved meshes)")
+            r.fail(f.qualname, f"pointwise-inverse:{label}", f.file, f.lineno, "_GroupElem.Get_invF_e_pg", f"{'curved ' if moved is not None else ''}{label}{' (one mid-side node off its chord)' if moved is not None else ''}: {bad}: the inverse Jacobian is not taken at the integration point, dN/dx is not the physical gradient there and a rigid rotation stores strain energy (K loses a rigid-body mode on curved meshes)")
         else:
-            r.ok(f"curved {name}: invF F == I at {nP} integration points")
+            r.ok(f"{label}: invF F == I at {nP} integration points")
+
+
+def structure_assignment_rule(ctx, rid="R2.13"):
+    """'beam mass matrices ... with the correct translational mass' / the stiffness law of every member: a BeamStructure
+    writes, on the elements tagged with each member's name, THAT member's law.  Calc_D_e_pg, Calc_M_e_pg and Get_axis_e are
+    interpreted on a structure of three members with distinct symbolic laws / axes and interleaved element tags: row e of
+    the result is the law (axis) of the member that owns element e."""
+    from types import SimpleNamespace
+
+    from ..femchain import XFe, fe_hook_full
+
+    repo = ctx.repo
+    ci = repo.cls("EasyFEA.Models.Beam._beam.BeamStructure")
+    r = ctx.rule(rid, "BeamStructure.Calc_D_e_pg / Calc_M_e_pg / Get_axis_e give every element the law / axes of the member that owns it (three members with distinct laws, interleaved elements)", min_instances=3)
+    owner = [0, 2, 1, 0, 2]  # member of each of the 5 elements
+    names = ["beam0", "beam1", "beam2"]
+
+    def law(tag, k):
+        return XArray((2, 2), [Poly.var(f"{tag}{k}_{i}{j}") for i in range(2) for j in range(2)])
+
+    beams = [SimpleNamespace(name=names[k], Get_D=lambda t=False, k=k: law("D", k), Get_M=lambda k=k: law("M", k),
+                             xAxis=XArray((3,), [Poly.var(f"x{k}{c}") for c in range(3)]), yAxis=XArray((3,), [Poly.var(f"y{k}{c}") for c in range(3)])) for k in range(3)]
+    group = SimpleNamespace(Ne=5, dim=1, Get_gauss=lambda mt=None: SimpleNamespace(nPg=2), Get_Elements_Tag=lambda tag: XArray.from_nested([e for e, o in enumerate(owner) if names[o] == tag]))
+    for mname, tag in (("Calc_D_e_pg", "D"), ("Calc_M_e_pg", "M"), ("Get_axis_e", "axis")):
+        f = ci.methods[mname]
+        r.instance(fn=f.qualname)
+        obj = XObj(ci, {ci.mangle("__beams"): beams})
+        I = Interp(repo, extra_builtins={"isinstance": lambda o, t: True})
+        I.call_hook = fe_hook_full
+        try:
+            out = I.call_function(f, [group], self_obj=obj)
+        except XRaise as e:
+            r.fail(f.qualname, f"structure:{mname}", f.file, f.lineno, f"BeamStructure.{mname}", f"raises {e}")
+            continue
+        bad = None
+        if tag == "axis":
+            xa, ya = XArray.from_nested(out[0]), XArray.from_nested(out[1])
+            for e, o in enumerate(owner):
+                for c in range(3):
+                    if bad is None and (xa[e, c] != beams[o].xAxis[c] or ya[e, c] != beams[o].yAxis[c]):
+                        bad = f"element {e} (member {o}) gets the axes of another member"
+        else:
+            A = XArray.from_nested(out)
+            for e, o in enumerate(owner):
+                for p in range(2):
+                    for i in range(2):
+                        for j in range(2):
+                            if bad is None and not is_zero(Poly.of(A[e, p, i, j]) - law(tag, o)[i, j]):
+                                bad = f"element {e} belongs to member {o} but carries {A[e, p, i, j]!r} (expected {law(tag, o)[i, j]!r})"
+        if bad:
+            r.fail(f.qualname, f"structure:{mname}", f.file, f.lineno, f"BeamStructure.{mname}", f"three members with distinct laws, elements owned by members {owner}: {bad}: " + ("the mass operator of a structure with different sections does not carry the mass of its members" if tag == "M" else "members get each other's law"))
+        else:
+            r.ok(f"{mname}: each element carries its own member's {'axes' if tag == 'axis' else 'law'}")
